@@ -36,3 +36,8 @@ Proof.
   cbn [app] in R'. split; [exact R'|].
   destruct R' as (_ & L' & _). destruct R as (_ & L & _). rewrite L', L, fresh_ids_length. reflexivity.
 Qed.
+
+(* into_bump_slice(_mut) / into_boxed_slice hand out exactly the contents, in order, and drop nothing:
+   with BoxModel.box_of_vec the boxed slice then owns those elements (C17) *)
+Theorem into_slice_spec e v c : repr e v c -> into_slice v = (c, no_eff).
+Proof. intros R. unfold into_slice. rewrite (repr_contents _ _ _ R). reflexivity. Qed.
